@@ -329,7 +329,19 @@ func logsloglevel2Level(level logslog.Level) Level {
 	case LevelPanic:
 		return PanicLevel
 	}
-	return FatalLevel
+	// any other value: the nearest standard level below it, never a
+	// terminating one
+	switch {
+	case level < logslog.LevelDebug:
+		return TraceLevel
+	case level < logslog.LevelInfo:
+		return DebugLevel
+	case level < logslog.LevelWarn:
+		return InfoLevel
+	case level < logslog.LevelError:
+		return WarnLevel
+	}
+	return ErrorLevel
 }
 
 // mLevelIsEnabledAs is a replacement table of two levels.
